@@ -57,7 +57,7 @@ Print Assumptions C06_side_conditions_hold.
    value disappears from the thread row (mode ACTIVE) and from the CPU row *)
 Definition chans1 := DecodeDefs.mk_chans [DecodeDefs.M_OVNI; DecodeDefs.M_NOSV].
 Definition sx1 : static :=
-  {| s_threads := [{| ti_tid := 7; ti_pid := 1; ti_loom := 0 |}];
+  {| s_threads := [{| ti_tid := 7; ti_pid := 1; ti_loom := 0; ti_appid := 1; ti_rank := -1 |}];
      s_cpus := [{| ci_virtual := false; ci_loom := 0; ci_index := 0 |}; {| ci_virtual := true; ci_loom := 0; ci_index := -1 |}];
      s_chans := chans1; s_lint := false |}.
 Example C06_ex_run :
